@@ -27,7 +27,7 @@ ASSUMPTIONS = [
     "a compression pointer may reuse an earlier case-variant spelling of the same suffix (RFC 1035 §4.1.4 + case-insensitive identity)",
     "termination is judged by a parser-step budget quadratic in buffer size, with a 20 s per-case wall backstop",
 ]
-REQUIRED = ["mon.text_roundtrip", "mon.wire_roundtrip", "mon.compressed_decode", "mon.limit_prediction", "mon.hostile_decode", "mon.namehook"]
+REQUIRED = ["mon.constructor_str_labels", "mon.origin_case_twins", "mon.text_roundtrip", "mon.wire_roundtrip", "mon.compressed_decode", "mon.limit_prediction", "mon.hostile_decode", "mon.namehook"]
 BUDGET = {"quick": 40.0, "thorough": 420.0}
 
 
@@ -421,6 +421,55 @@ def check_text_limits(ctx, labels):
             expect(ctx, "from_wire", lambda: dns.name.from_wire(w, 0)[0], pred, case)
 
 
+def check_constructor_str(ctx, rng):
+    """Name(labels) with str labels: what is stored (and measured against 63/255) is the UTF-8 encoding, not the character count"""
+    ctx.count("evaluations")
+    ctx.count("mon.constructor_str_labels")
+    labs = []
+    for _ in range(rng.choice((1, 2, 3, 4, 6))):
+        ch = rng.choice(("a", "\u00e9", "\u00e9", "\u20ac", "\U0001f600", "z\u00fc"))
+        n = rng.choice((1, 5, 21, 31, 32, 33, 62, 63, 64, rng.randint(1, 70)))
+        labs.append((ch * n)[:n] if rng.random() < 0.7 else ch * max(1, n // 4) + "x" * rng.randint(0, 20))
+    if rng.random() < 0.6:
+        labs.append("")
+    mixed = [l.encode() if rng.random() < 0.2 else l for l in labs]  # str and bytes may be mixed in one call
+    want = tuple(l.encode() for l in labs)
+    case = {"kind": "ctor-str", "labels": [repr(l) for l in mixed]}
+    ctx.seen(("ctor-str", min(max(len(w) for w in want), 70) // 8, R.fits(want)))
+    expect(ctx, "Name(str-labels)", lambda: dns.name.Name(mixed), want if R.fits(want) else None, case)
+
+
+def check_origin_twins(ctx, rng, labels):
+    """the same relative text read against origins that differ only in letter case, one after the other: every result carries
+    the labels of the origin IT was given"""
+    if labels and labels[-1] == b"":
+        return
+    ctx.count("evaluations")
+    ctx.count("mon.origin_case_twins")
+    base = rng.choice(((b"example", b"com", b""), (b"zone", b""), (b"a-b", b"x1", b"test", b"")))
+    t = rng.choice(("@", "")) if not labels or rng.random() < 0.15 else R.to_text(labels)
+    rel = () if t in ("@", "") else tuple(labels)
+    case = {"kind": "origin-twins", "labels": list(rel), "text": t}
+    for variant in rng.sample((bytes.lower, bytes.upper, bytes.title, bytes.swapcase), 3):
+        o = tuple(variant(l) for l in base)
+        if not R.fits(rel + o):
+            return
+        how = rng.choice(("from_text", "tokenizer", "bytes"))
+        try:
+            if how == "from_text":
+                got = dns.name.from_text(t, origin=mk(o))
+            elif how == "bytes":
+                got = dns.name.from_text(t.encode("ascii"), origin=mk(o))
+            else:
+                got = dns.tokenizer.Tokenizer((t or "@") + " 1\n").get_name(origin=mk(o))
+        except Exception as e:
+            ctx.violation("text-origin-append-raised:" + core.exc_sig(e), f"text={t!r} origin={o!r}: {e!r}", case)
+            return
+        if got.labels != rel + o:
+            ctx.violation("text-origin-append-mismatch:origin-spelled-in-another-case-earlier", f"text={t!r} origin={o!r} back={got.labels!r}", case)
+            return
+
+
 # ------------------------------------------------------------------------------------------ hostile wire
 
 
@@ -608,6 +657,8 @@ def run(spec, ctx):
                 break
             labels = G.name(rng)
             check_text(ctx, labels)
+            check_origin_twins(ctx, rng, labels if not (labels and labels[-1] == b"") else tuple(labels[:-1])[: rng.randint(0, 3)])
+            check_constructor_str(ctx, rng)
             if i < 3:
                 ctx.sample({"mode": "text", "labels": [l.hex() for l in labels], "text": R.to_text(labels)})
         flush_hook(ctx, hook)
